@@ -442,8 +442,8 @@ def check_precision(prog, rep, m):
                     'an array that holds class breaks taken from the data must not be narrower than float64: a '
                     'float64 maximum rounded down to float32 leaves the maximum cell above the last break (NaN)')
     # last break forced to the exact maximum: the vector handed to the binning kernel, as it is at the call
-    for fname, label in (('_run_natural_break', 'natural_breaks'), ('_run_equal_interval', 'equal_interval')):
-        f = m.funcs.get(fname)
+    targets_ = [(m.funcs.get('_run_natural_break'), 'natural_breaks')] + [(g_, 'equal_interval') for g_ in _equal_interval_impls(prog, m)]
+    for f, label in targets_:
         if f is None:
             continue
         from ..inline import inline_view as _iv
@@ -599,10 +599,35 @@ def last_is_max(f, pm, call, barg, mxname='max_data'):
     return r if r is not None else (False, 'no statement forces %s[-1] = max_data before the call' % barg.id)
 
 
-def check_formulas(prog, rep, m):
+def _equal_interval_impls(prog, m):
+    """the function(s) behind the numpy and the dask entry of equal_interval's dispatch: one shared function taking the array
+    module, or one function per backend"""
     g = m.funcs.get('_run_equal_interval')
-    if g is None:
-        raise AnalysisIncomplete('_run_equal_interval not found')
+    if g is not None:
+        return [g]
+    from ..backends import backend_paths, unwrap_lambda
+    pub = m.funcs.get('equal_interval')
+    out = []
+    for path in (backend_paths(prog, pub) if pub is not None else []):
+        if path.backend in ('numpy', 'dask'):
+            t, _kw = unwrap_lambda(prog, path)
+            while isinstance(t, Partial):
+                t = t.target
+            if isinstance(t, Func) and not t.is_lambda and not any(t is x for x in out):
+                out.append(t)
+    return out
+
+
+def check_formulas(prog, rep, m):
+    impls = _equal_interval_impls(prog, m)
+    if not impls:
+        raise AnalysisIncomplete('the implementation of equal_interval was not found (no _run_equal_interval, no backend functions)')
+    for g in impls:
+        _check_equal_interval_formulas(prog, rep, m, g)
+    _check_quantile_formulas(prog, rep, m)
+
+
+def _check_equal_interval_formulas(prog, rep, m, g):
     from ..inline import inline_view as _iv
     g = _iv(prog, g, keep=('_bin',), allow_loops=True)              # range and cuts may be computed in helpers: read in place
     # the locals by what they hold, not by their names: the maximum / minimum are assigned from nanmax / nanmin, the width
@@ -818,6 +843,10 @@ def check_formulas(prog, rep, m):
                 True if fl == 'float' else (False if fl == 'raw' else None),
                 'the extremum is a reduction of the raster in its own dtype (no NaN fill, no float cast on this path): for a narrow '
                 'integer raster max - min wraps around (int16 from -20000 to 20000: width < 0, every cell lands in class k-1)')
+
+
+def _check_quantile_formulas(prog, rep, m):
+    from fractions import Fraction      # noqa
     # quantile
     q = m.funcs.get('_run_quantile')
     if q is None:
@@ -850,8 +879,19 @@ def check_formulas(prog, rep, m):
         wd = sp.it.env['w']
         okp = a == wd and b == Rat.const(100) + wd and c == wd
     from ..astutil import canon_test_text
-    cap = any(isinstance(s, ast.If) and canon_test_text(s.test) in ('%s[-1]>100.0' % pn, '%s[-1]>100' % pn) and
-              any(norm(x).replace(' ', '') in ('%s[-1]=100.0' % pn, '%s[-1]=100' % pn) for x in s.body) for s in q.own_nodes())
+    def _lit(e_):
+        """the expression with module-level literal constants written out (normal form N2)"""
+        import copy as _cp
+
+        class _L(ast.NodeTransformer):
+            def visit_Name(self, n_):
+                v_ = getattr(n_, '_xrsa_const', None)
+                if isinstance(n_.ctx, ast.Load) and isinstance(v_, (int, float)) and not isinstance(v_, bool):
+                    return ast.copy_location(ast.Constant(value=v_), n_)
+                return n_
+        return ast.fix_missing_locations(_L().visit(_cp.deepcopy(e_)))
+    cap = any(isinstance(s, ast.If) and canon_test_text(_lit(s.test)) in ('%s[-1]>100.0' % pn, '%s[-1]>100' % pn) and
+              any(norm(_lit(x)).replace(' ', '') in ('%s[-1]=100.0' % pn, '%s[-1]=100' % pn) for x in s.body) for s in q.own_nodes())
     rep.add('K4', q, 'quantile', 'percentile levels w, 2w, ... capped at 100', q.node.lineno, okw and okp and cap,
             'the k percentile levels must be 100*i/k, i = 1..k, the last one capped at 100 (w ok: %s, levels ok: %s, cap: %s)'
             % (okw, okp, cap))
